@@ -211,7 +211,7 @@ pub fn execute(cc: &CCase) -> Result<Exec, Fail> {
             drop(drv);
         }));
     }
-    let scfg = SchedulerCfg { choices: cc.choices.clone(), probes: cc.probes.clone(), probe_wait: Duration::from_millis(25), watchdog: Duration::from_secs(20) };
+    let scfg = SchedulerCfg { choices: cc.choices.clone(), probes: cc.probes.clone(), probe_wait: Duration::from_millis(25), watchdog: Duration::from_secs(90) };
     let log = drive(&gates, &rx, n, &scfg);
     gates.release_all();
     for j in joins {
@@ -1430,7 +1430,7 @@ pub fn check_stress(sc: &StressCase, st: &mut Stats) -> CheckResult {
                             crate::driver::Endpoint::GetSnapshot => crate::driver::req_get_snapshot(c),
                             crate::driver::Endpoint::GetChild => crate::driver::req_get_child(c, id),
                         };
-                        match exchange(addrs[(t + k) % addrs.len()], &req, Encoding::ContentLength, &[], Duration::from_secs(30)) {
+                        match exchange(addrs[(t + k) % addrs.len()], &req, Encoding::ContentLength, &[], Duration::from_secs(120)) {
                             Ok(r) => crate::driver::decode(ep, &r),
                             Err(SockError::NoResponse(m)) | Err(SockError::Io(m)) => Outcome::Refused { status: 0 }.clone_with(m),
                         }
@@ -1575,7 +1575,7 @@ pub fn check_multi(mc: &MCase, st: &mut Stats) -> CheckResult {
         let addr = srv.addr;
         _srv = Some(srv);
         first.ext = Some(Box::new(move |r: &crate::driver::HttpReq| -> crate::driver::HttpResp {
-            match crate::sock::exchange(addr, r, crate::sock::Encoding::ContentLength, &[], Duration::from_secs(20)) {
+            match crate::sock::exchange(addr, r, crate::sock::Encoding::ContentLength, &[], Duration::from_secs(120)) {
                 Ok(resp) => resp,
                 Err(e) => crate::driver::HttpResp { status: 0, crashed: Some(format!("no response: {e:?}")), ..Default::default() },
             }
